@@ -89,6 +89,7 @@ fn main() {
         "agones" => agones::histories(seed),
         "limits" => conn::limits(seed),
         "session" => conn::session(seed),
+        "order" => conn::order(seed),
         "enc_response" => conn::enc_response(seed),
         "cookie_matrix" => conn::cookie_matrix(seed),
         "cipher" => cipher::schedules(seed),
